@@ -49,22 +49,35 @@ type vhOp struct {
 	action  string
 	value   float64
 	label   string
+	extra   bool // carries a second label "k" (label sets of varying shape)
 	invalid bool
 }
 
 func vhMakeOp(tag string, allowInvalid bool) vhOp {
 	o := vhOp{}
 	o.group = zz.ConcretizeStr(zz.OneOf(tag+"_group", "", "g1", "g2"))
-	o.name = zz.ConcretizeStr(zz.OneOf(tag+"_name", "m1", "m2"))
-	if o.group == "" {
+	o.name = "m1"
+	if zz.Param("single_name", 0) == 0 {
+		o.name = zz.ConcretizeStr(zz.OneOf(tag+"_name", "m1", "m2"))
+	}
+	switch {
+	case zz.Param("gauge_only", 0) == 1 && o.group == "":
+		o.action = "set"
+	case zz.Param("gauge_only", 0) == 1:
+		o.action = zz.ConcretizeStr(zz.OneOf(tag+"_action", "set", "expire"))
+	case o.group == "":
 		o.action = zz.ConcretizeStr(zz.OneOf(tag+"_action", "add", "set", "observe"))
-	} else {
+	default:
 		o.action = zz.ConcretizeStr(zz.OneOf(tag+"_action", "add", "set", "expire"))
 	}
 	o.value = zz.Float(tag+"_value", 1, 2, 0.5)
 	o.label = zz.OneOf(tag+"_label", "a", "b")
 	v := o.value
 	o.op = operation.MetricOperation{Name: o.name, Group: o.group, Action: o.action, Value: &v, Labels: map[string]string{"l": o.label}}
+	if zz.Param("extra_label", 0) == 1 && zz.Bool(tag+"_extra_label") {
+		o.extra = true
+		o.op.Labels["k"] = "kv"
+	}
 	if o.action == "observe" {
 		o.op.Buckets = []float64{1, 5}
 	}
@@ -83,6 +96,7 @@ type vhSeries struct {
 	group string
 	name  string
 	label string
+	extra bool
 	value float64
 }
 
@@ -123,7 +137,7 @@ func vhApplyModel(st []vhSeries, batch []vhOp) []vhSeries {
 			}
 			found := false
 			for i := range out {
-				if out[i].group == g && out[i].name == o.name && out[i].kind == kind && zz.Concretize(vhEq(out[i].label, o.label)) == 1 {
+				if out[i].group == g && out[i].name == o.name && out[i].kind == kind && out[i].extra == o.extra && zz.Concretize(vhEq(out[i].label, o.label)) == 1 {
 					found = true
 					if kind == "counter" {
 						out[i].value += o.value
@@ -133,7 +147,7 @@ func vhApplyModel(st []vhSeries, batch []vhOp) []vhSeries {
 				}
 			}
 			if !found {
-				out = append(out, vhSeries{kind, g, o.name, o.label, o.value})
+				out = append(out, vhSeries{kind, g, o.name, o.label, o.extra, o.value})
 			}
 		}
 	}
@@ -215,7 +229,11 @@ func VH_C16_batches() {
 				if k < len(vhRec) {
 					r := vhRec[k]
 					zz.Assert(r.kind == o.action && r.name == o.name && r.value == o.value, "ungrouped_operation_applied")
-					zz.Assert(r.labels["hook"] == "hookA" && r.labels["l"] == o.label && len(r.labels) == 2, "hook_label_added")
+					nl := 2
+					if o.extra {
+						nl = 3
+					}
+					zz.Assert(r.labels["hook"] == "hookA" && r.labels["l"] == o.label && len(r.labels) == nl, "hook_label_added")
 				}
 				k++
 			}
@@ -227,7 +245,7 @@ func VH_C16_batches() {
 	collide := false
 	for i := range history {
 		for j := range history {
-			if i != j && history[i].name == history[j].name && history[i].group != history[j].group && zz.Concretize(vhEq(history[i].label, history[j].label)) == 1 {
+			if i != j && history[i].name == history[j].name && history[i].group != history[j].group && history[i].extra == history[j].extra && zz.Concretize(vhEq(history[i].label, history[j].label)) == 1 {
 				collide = true
 			}
 		}
@@ -241,11 +259,23 @@ func VH_C16_batches() {
 	for _, w := range model {
 		cnt := 0
 		for _, g := range got {
-			if g.Group == w.group && g.Name == "p_"+w.name || g.Group == w.group && g.Name == w.name {
-				if g.Kind == w.kind && len(g.LabelValues) == 2 && g.LabelValues[0] == "hookA" && g.LabelValues[1] == w.label {
-					cnt++
-					zz.Assert(g.Value == w.value, "series_has_the_given_value")
+			if g.Group != w.group || !(g.Name == "p_"+w.name || g.Name == w.name) || g.Kind != w.kind {
+				continue
+			}
+			// label values by name; a label the series never had is exported as ""
+			lv := map[string]string{}
+			for i, n := range g.LabelNames {
+				if i < len(g.LabelValues) {
+					lv[n] = g.LabelValues[i]
 				}
+			}
+			wantK := ""
+			if w.extra {
+				wantK = "kv"
+			}
+			if lv["hook"] == "hookA" && lv["l"] == w.label && lv["k"] == wantK {
+				cnt++
+				zz.Assert(g.Value == w.value, "series_has_the_given_value")
 			}
 		}
 		zz.Assert(cnt == 1, "each_series_present_once")
